@@ -181,6 +181,9 @@ func (g *gen) funcSpec(si symInfo) *FuncSpec {
 						reset = append(reset, uint32(r.Intn(6)))
 					}
 				}
+				// reserved indices anywhere in the lists, also in front of the flags that may be written
+				vk.Shuffle(r, set)
+				vk.Shuffle(r, reset)
 			}
 			f.FlagSet = append(f.FlagSet, set)
 			f.FlagReset = append(f.FlagReset, reset)
